@@ -21,6 +21,8 @@ mod valrun;
 mod walrun;
 #[cfg(agdb_verif)]
 mod crashrun;
+#[cfg(agdb_verif)]
+mod storrun;
 
 use std::collections::BTreeMap;
 use std::io::Write;
@@ -176,6 +178,34 @@ fn main() {
             write_lines(&format!("{}/impl.txt", out), &o.imp);
             write_lines(&format!("{}/oracle.txt", out), &o.oracle);
             write_stats(&format!("{}/stats.json", out), &o.stats, o.evaluations, o.nontrivial, &o.samples);
+        }
+        #[cfg(agdb_verif)]
+        "c04" => {
+            // --n histories (each run on the three back-ends), --steps max operations, --exhaustive D (0 = off)
+            let mut o = storrun::Out::new();
+            let mut r = rng::Rng::new(seed);
+            let max_ops: u64 = arg(&args, "--steps", "60").parse().unwrap();
+            let exhaustive: usize = arg(&args, "--exhaustive", "0").parse().unwrap();
+            let backends = [storrun::Backend::Mem, storrun::Backend::File, storrun::Backend::Mapped];
+            for i in 0..n {
+                let hs = r.next();
+                for b in backends {
+                    let mut pr = rng::Rng(hs);
+                    storrun::run_history(&mut pr, b, i % 2 == 1, &out, i, max_ops, &mut o);
+                }
+            }
+            if exhaustive > 0 {
+                storrun::run_exhaustive(storrun::Backend::Mem, &out, exhaustive, &mut o);
+                if exhaustive > 1 {
+                    storrun::run_exhaustive(storrun::Backend::File, &out, exhaustive - 1, &mut o);
+                    storrun::run_exhaustive(storrun::Backend::Mapped, &out, exhaustive - 1, &mut o);
+                }
+            }
+            write_lines(&format!("{}/cases.txt", out), &o.cases);
+            write_lines(&format!("{}/impl.txt", out), &o.imp);
+            write_lines(&format!("{}/oracle.txt", out), &o.oracle);
+            o.stats.insert("histories".into(), o.histories);
+            write_stats(&format!("{}/stats.json", out), &o.stats, o.steps, o.nontrivial, &o.samples);
         }
         "db" => {
             let opts = dbrun::Opts {
